@@ -325,7 +325,8 @@ def random_grammars(seed, n, start_gid, classical_only=False):
                 fwd = allnames[rnd.randint(j, nrules - 1)]
                 body = app("sor", app("seq", one(rnd.choice("ab")), ref(fwd)), body) if rnd.random() < 0.5 else app("seq", body, app("opt", app("seq", one("c"), ref(fwd))))
             rules.append((allnames[j], body.cpp))
-            if body.sx is None:
+            if body.sx is None or body.sx.startswith("(ref "):
+                # `struct R1 : R0 {}` (a body that is a bare reference) is outside the fragment of the structure tie
                 ok_surface = False
             else:
                 surf[allnames[j]] = body.sx
